@@ -36,6 +36,9 @@ def correspond(ctx):
         K.corr_roundtrip(ctx, ADAPTERS[k], ctx.n(160, 800), generations=2)
     _fchk.corr_objects(ctx, ctx.n(200, 1000), generations=2)
     from ._cube import CUBE
+    from ._mol2 import MOL2
+
+    K.corr_roundtrip(ctx, MOL2, ctx.n(160, 800), generations=2)
 
     K.corr_roundtrip(ctx, CUBE, ctx.n(200, 1000), generations=2)
 
